@@ -416,12 +416,22 @@ pub fn exec(v: &Value) -> Result<Value> {
 	let data = zip_entries(&entries)?;
 
 	// ---- the code under test
-	let m: Mappings<2, Ns> = json_to_tree(&v["M"])?;
 	let jar = UnnamedMemJar { data };
 	let own = match jar.get_super_classes_provider() { Ok(p) => p, Err(e) => return Ok(refused("provider", e, base)) };
 	let inheritance = vec![own, lib_prov(&v["lib"])?];
-	let remapper = match m.remapper_b_first_to_second(&inheritance) { Ok(r) => r, Err(e) => return Ok(refused("remapper", e, base)) };
-	let out = match dukebox::remap::remap(jar.clone(), remapper) { Ok(o) => o, Err(e) => return Ok(refused("remap", e, base)) };
+	// the mapping set has two namespaces (first -> second), or three with the jar's names in a later one ("from" / "to", 1-based)
+	let n_ns = v["M"]["ns"].as_array().map(|a| a.len()).unwrap_or(2);
+	let out = if n_ns == 3 {
+		let m: Mappings<3, Ns> = json_to_tree(&v["M"])?;
+		let from = quill::tree::names::Namespace::new(v["from"].as_u64().context("from")? as usize - 1)?;
+		let to = quill::tree::names::Namespace::new(v["to"].as_u64().context("to")? as usize - 1)?;
+		let remapper = match m.remapper_b(from, to, &inheritance) { Ok(r) => r, Err(e) => return Ok(refused("remapper", e, base)) };
+		match dukebox::remap::remap(jar.clone(), remapper) { Ok(o) => o, Err(e) => return Ok(refused("remap", e, base)) }
+	} else {
+		let m: Mappings<2, Ns> = json_to_tree(&v["M"])?;
+		let remapper = match m.remapper_b_first_to_second(&inheritance) { Ok(r) => r, Err(e) => return Ok(refused("remapper", e, base)) };
+		match dukebox::remap::remap(jar.clone(), remapper) { Ok(o) => o, Err(e) => return Ok(refused("remap", e, base)) }
+	};
 	let mut tree = Map::new();
 	for (name, e) in &out.entries {
 		if let JarEntryEnum::Class(ClassRepr::Parsed { class }) = &e.content {
@@ -742,6 +752,50 @@ fn gen_items(r: &mut StdRng) -> Value {
 	json!({"op": "remap", "cls": "generated", "M": m, "lib": {"ext/Base": ["ext/Top", "ext/Itf"], "ext/Top": [], "ext/Itf": []}, "jar": jar})
 }
 
+/// Descriptor `d` with every class name that is a key of `k` replaced (token scanner: `L` at a type boundary up to `;`).
+fn desc_with(d: &str, k: &HashMap<String, String>) -> String {
+	let b: Vec<char> = d.chars().collect();
+	let mut out = String::new();
+	let mut i = 0;
+	while i < b.len() {
+		if b[i] == 'L' {
+			if let Some(e) = (i + 1..b.len()).find(|&j| b[j] == ';') {
+				let name: String = b[i + 1..e].iter().collect();
+				out.push('L'); out.push_str(k.get(&name).unwrap_or(&name)); out.push(';');
+				i = e + 1;
+				continue;
+			}
+		}
+		out.push(b[i]);
+		i += 1;
+	}
+	out
+}
+
+/// The same renames stated over three namespaces <<k, a, b>>: classes and members keyed by fresh names of a namespace the jar is
+/// not in, member descriptors written in that namespace (as quill stores them), the jar remapped from the second to the third.
+/// Every class gets a name in the third namespace (its own where the two-namespace set had none).
+fn via3(rec: &mut Value) {
+	let Some(kids) = rec["M"]["kids"].as_object().cloned() else { return };
+	let k: HashMap<String, String> = kids.values().map(|c| { let a = st(&c["names"][0]).to_owned(); (a.clone(), format!("{a}_k")) }).collect();
+	let mut out = Map::new();
+	for c in kids.values() {
+		let a = st(&c["names"][0]);
+		let b = if st(&c["names"][1]).is_empty() { a } else { st(&c["names"][1]) };
+		let mut mk = Map::new();
+		for m in c["kids"].as_object().into_iter().flatten().map(|(_, m)| m) {
+			let kind = st(&m["kind"]);
+			let (n, t, d) = (st(&m["names"][0]), st(&m["names"][1]), desc_with(st(&m["desc"]), &k));
+			mk.insert(format!("{kind} {n}_k {d}"), json!({"kind": kind, "names": [format!("{n}_k"), n, t], "desc": d, "idx": 0, "doc": [], "kids": {}}));
+		}
+		out.insert(format!("c {}", k[a]), json!({"kind": "c", "names": [k[a], a, b], "desc": "", "idx": 0, "doc": [], "kids": Value::Object(mk)}));
+	}
+	rec["M"] = json!({"ns": ["k", "a", "b"], "doc": [], "kids": Value::Object(out)});
+	rec["from"] = json!(2);
+	rec["to"] = json!(3);
+	rec["cls"] = json!(format!("via3-{}", st(&rec["cls"])));
+}
+
 pub fn gen(seed: u64, n: usize) -> Result<Vec<Value>> {
 	let mut r = StdRng::seed_from_u64(seed ^ 0xC07);
 	let nsamples = samples().len() - NOT_WELL_FORMED.len();
@@ -751,5 +805,7 @@ pub fn gen(seed: u64, n: usize) -> Result<Vec<Value>> {
 	while out.len() < n {
 		out.push(if r.gen_bool(0.6) { gen_corpus(&mut r) } else { gen_items(&mut r) });
 	}
+	// every fourth record: the mapping set over three namespaces, remapped from the second to the third
+	for (i, rec) in out.iter_mut().enumerate() { if i % 4 == 3 { via3(rec); } }
 	Ok(out)
 }
